@@ -46,6 +46,9 @@ pub struct Case {
     pub start_state: u8,
     pub base_kind: u8,
     pub kalman: bool,
+    /// slave-only instance (start states listening / slave only)
+    #[serde(default)]
+    pub slave_only: bool,
 }
 
 struct Rx {
@@ -93,6 +96,10 @@ pub fn run_case(rep: &mut Report, case: &Case, verbose: bool) {
     }
     if case.start_state == 3 {
         b.clock_class = 6;
+    }
+    if case.slave_only {
+        b.slave_only = true;
+        b.clock_class = 255;
     }
     let Ok(built) = b.build() else { return };
     let mut node = built.node;
@@ -437,9 +444,10 @@ pub fn run(rep: &mut Report, tier: &str, seed: u64, shard: (u32, u32), replay: O
                     seed: seed.wrapping_mul(31).wrapping_add(idx),
                     script,
                     two_step: [[true, true], [false, false], [true, false], [false, true]][(idx % 4) as usize],
-                    start_state: (idx / 4 % 4) as u8,
+                    start_state: if idx / 64 % 4 == 3 { [0u8, 2][(idx / 4 % 2) as usize] } else { (idx / 4 % 4) as u8 },
                     base_kind: (idx / 16 % 4) as u8,
                     kalman: false,
+                    slave_only: idx / 64 % 4 == 3,
                 };
                 count(rep, &case);
                 enumerated += 1;
@@ -455,7 +463,7 @@ pub fn run(rep: &mut Report, tier: &str, seed: u64, shard: (u32, u32), replay: O
             }
             script.extend_from_slice(if v & 2 != 0 { &[E::R(0), E::R(1)] } else { &[E::R(1), E::F(1), E::R(0)] });
             script.extend_from_slice(&[E::XSync, E::AnnounceTimer, E::SyncTimer, E::XSync, E::T, E::X, E::X, E::R(0), E::F(0)]);
-            let case = Case { seed: seed.wrapping_add(7000 + v), script, two_step: [v & 4 != 0, v & 8 != 0], start_state: 1, base_kind: (v % 4) as u8, kalman: false };
+            let case = Case { seed: seed.wrapping_add(7000 + v), script, two_step: [v & 4 != 0, v & 8 != 0], start_state: 1, base_kind: (v % 4) as u8, kalman: false, slave_only: false };
             count(rep, &case);
             enumerated += 1;
         }
@@ -469,7 +477,8 @@ pub fn run(rep: &mut Report, tier: &str, seed: u64, shard: (u32, u32), replay: O
         i += 1;
         let len = rng.gen_range(3..=30);
         let script: Vec<E> = (0..len).map(|_| full[rng.gen_range(0..full.len())]).collect();
-        let case = Case { seed: rng.gen(), script, two_step: [rng.gen(), rng.gen()], start_state: rng.gen_range(0..4), base_kind: rng.gen_range(0..4), kalman: rng.gen_bool(0.15) };
+        let slave_only = rng.gen_bool(0.15);
+        let case = Case { seed: rng.gen(), script, two_step: [rng.gen(), rng.gen()], start_state: if slave_only { [0u8, 2][rng.gen_range(0..2)] } else { rng.gen_range(0..4) }, base_kind: rng.gen_range(0..4), kalman: rng.gen_bool(0.15), slave_only };
         if i <= 2 {
             rep.sample(serde_json::to_value(&case).unwrap());
         }
